@@ -11,110 +11,31 @@ def seed_of():
         return 1
 
 
+def cfgs(tier, quick, thorough_extra=()):
+    """quick configs always run; the thorough tier adds deeper ones"""
+    return list(quick) + (existing(thorough_extra) if tier == "thorough" else [])
+
+
+def existing(names):
+    return [n for n in names if os.path.exists(os.path.join(SPEC, "mc", n))]
+
+
+INV_PARSE = ["P_C01_ViablePrefix", "P_C01_AcceptIffGrammar", "P_C06_Reported", "P_C07_ReleasedOnce", "P_C02_DepthBounded"]
+INV_LINES = INV_PARSE + ["P_C06_Position", "P_C15_Transparent", "P_C15_Annotation"]
+INV_IGNORE = ["P_C01_ViablePrefix", "P_C01_AcceptIffGrammar", "P_C12_Silent", "P_C12_RejectedWithout", "P_C06_Reported", "P_C02_DepthBounded"]
+INV_CB = ["P_C14_VerdictBinds", "P_C14_StoredIsProduced", "P_C14_ValidateSeesValue", "P_C06_Reported", "P_C07_ReleasedOnce", "P_C02_DepthBounded"]
+PROPS_API = ["P_C09_TitlesUnique", "P_C09_AppendKeeps", "P_C09_RemoveKeepsOrder", "P_C10_FailNoEffect",
+             "P_C09_Modified", "P_C09_BadCallsFail", "P_C07_Ledger"]
+INV_PRINT = ["P_C19_ExactlyOnceInOrder", "P_C19_Nesting", "P_C19_UnsetCommentedOut", "P_C19_PrintCb"]
+INV_LEX = ["P_C02_Total", "P_C02_Progress", "P_C03_RulesMeanRef", "P_C03_NoExpandInSQ", "P_C03_CommentsSilent",
+           "P_C06_Lines", "P_C02_ReturnsVerdict", "P_C05_StrRoundTrip"]
+INV_PATH = ["P_C11_Agree", "P_C11_GoodResolve", "P_C11_FirstInstance"]
+
+
 def tlc_parse(v, cfgname, invariants, **kw):
     res = run_tlc("MC_Parse.tla", os.path.join("mc", cfgname), **kw)
     v.add_tlc(cfgname, res, invariants)
     return res
-
-
-INV_PARSE = ["P_C01_ViablePrefix", "P_C01_AcceptIffGrammar", "P_C06_Reported", "P_C07_ReleasedOnce", "P_C02_DepthBounded"]
-
-
-def check_C01(tier, seed):
-    v = Verdict("C01", tier, seed)
-    exe = build_driver("asan")
-    cfgs = ["C01_quick.cfg"] if tier == "quick" else ["C01_quick.cfg"]
-    for c in cfgs:
-        res = tlc_parse(v, c, INV_PARSE)
-        parsecheck.replay(v, exe, res, aspects={"tree", "diag"}, seed=seed,
-                          renderings=("canonical", "varied"), tag="C01")
-    v.cov["exhaustive"] = True
-    return v.finish(rule="every token sequence up to the configured length over the schema's alphabet (TLC BFS); "
-                         "a behaviour is non-trivial when it is accepted or longer than one token; each is parsed "
-                         "by the real library in a canonical and a seeded varied rendering and the full getter tree is compared")
-
-
-INV_LINES = INV_PARSE + ["P_C06_Position", "P_C15_Transparent", "P_C15_Annotation"]
-
-
-def check_C06(tier, seed):
-    v = Verdict("C06", tier, seed)
-    exe = build_driver("asan")
-    for c in (["lines_quick.cfg"] if tier == "quick" else ["lines_quick.cfg"]):
-        res = tlc_parse(v, c, INV_LINES)
-        parsecheck.replay(v, exe, res, aspects={"diag", "diagpos"}, seed=seed,
-                          renderings=("canonical", "varied"), tag="C06")
-    v.cov["exhaustive"] = True
-    return v.finish(rule="every token sequence up to the configured length with a line break choice before every token, "
-                         "multi-line comments and strings; non-trivial = rejected text (its first diagnostic's file and line are compared) "
-                         "or accepted text (must be silent)")
-
-
-def check_C15(tier, seed):
-    v = Verdict("C15", tier, seed)
-    exe = build_driver("asan")
-    for c in (["comments_quick.cfg"] if tier == "quick" else ["comments_quick.cfg"]):
-        res = tlc_parse(v, c, INV_LINES)
-        parsecheck.replay(v, exe, res, aspects={"tree", "diag"}, seed=seed,
-                          renderings=("varied",), tag="C15")
-    v.cov["exhaustive"] = True
-    return v.finish(rule="every token sequence up to the configured length with comment tokens (empty and non-empty, "
-                         "all three styles chosen by the renderer) at every token boundary, annotation support on and off")
-
-
-INV_IGNORE = ["P_C01_ViablePrefix", "P_C01_AcceptIffGrammar", "P_C12_Silent", "P_C12_RejectedWithout", "P_C06_Reported", "P_C02_DepthBounded"]
-
-
-def check_C12(tier, seed):
-    v = Verdict("C12", tier, seed)
-    exe = build_driver("asan")
-    for c in (["ignore_quick.cfg"] if tier == "quick" else ["ignore_quick.cfg"]):
-        res = tlc_parse(v, c, INV_IGNORE)
-        parsecheck.replay(v, exe, res, aspects={"tree", "diag", "balance"}, seed=seed,
-                          renderings=("canonical",), tag="C12")
-    v.cov["exhaustive"] = True
-    return v.finish(rule="every token sequence up to the configured length over the schema's alphabet plus an undeclared name, "
-                         "parsed with CFGF_IGNORE_UNKNOWN; malformed undeclared items are outside the property (status unspec: only "
-                         "crash/leak checked)")
-
-
-INV_CB = ["P_C14_VerdictBinds", "P_C14_StoredIsProduced", "P_C14_ValidateSeesValue", "P_C06_Reported", "P_C07_ReleasedOnce", "P_C02_DepthBounded"]
-
-
-def check_C14(tier, seed):
-    v = Verdict("C14", tier, seed)
-    exe = build_driver("asan")
-    for c in (["callbacks_quick.cfg"] if tier == "quick" else ["callbacks_quick.cfg"]):
-        res = tlc_parse(v, c, INV_CB)
-        parsecheck.replay(v, exe, res, aspects={"tree", "tree_rejected", "diag", "cb"}, seed=seed,
-                          renderings=("canonical",), tag="C14")
-    # the pre-set validation callback of the by-name setters: veto and rewrite
-    for c in ["api_veto2_quick.cfg", "api_rewrite_quick.cfg", "api_rewrite2_quick.cfg"]:
-        res = tlc_api(v, c)
-        res.behaviours = [b for b in res.behaviours if b["calls"][-1]["call"]["name"] in ("vi", "vs", "vf")]
-        apicheck.replay(v, exe, res, aspects={"tree", "cb", "noeffect"}, seed=seed, tag="C14", sigprefix="api")
-    v.cov["exhaustive"] = True
-    return v.finish(rule="every token sequence up to the configured length over a schema whose scalar, list, section and function "
-                         "options carry value-parsing / validation / function callbacks, for every choice of the failing invocation "
-                         "(none, 1st, 2nd of each kind); the callback log (kind, option, text/argv, visible values) is compared entry by entry")
-
-
-def check_C07(tier, seed):
-    v = Verdict("C07", tier, seed)
-    exe = build_driver("asan")
-    for c in (["callbacks_quick.cfg", "C01_quick.cfg"] if tier == "quick" else ["callbacks_quick.cfg", "C01_quick.cfg"]):
-        res = tlc_parse(v, c, INV_CB if "callbacks" in c else INV_PARSE)
-        parsecheck.replay(v, exe, res, aspects={"freed", "balance"}, seed=seed,
-                          renderings=("canonical",), tag="C07")
-    v.cov["exhaustive"] = True
-    return v.finish(rule="every token sequence up to the configured length (every cut and corruption point of every short text) "
-                         "over schemas with pointer-valued options, lists, nested sections and functions, callbacks failing at every "
-                         "position; after each behaviour: live heap blocks, open streams and descriptors back to the start value, "
-                         "release callback log = the specification's released/stored pointer sets, ASan clean")
-
-
-PROPS_API = ["P_C09_TitlesUnique", "P_C09_AppendKeeps", "P_C09_RemoveKeepsOrder", "P_C10_FailNoEffect",
-             "P_C09_Modified", "P_C09_BadCallsFail", "P_C07_Ledger"]
 
 
 def tlc_api(v, cfgname):
@@ -126,14 +47,133 @@ def tlc_api(v, cfgname):
     return res
 
 
+def run_lex(v, exe, cfglist, seed, tag):
+    for c in cfglist:
+        res = run_tlc("MC_Lex.tla", os.path.join("mc", c))
+        v.add_tlc(c, res, INV_LEX)
+        lexcheck.replay(v, exe, res, seed=seed, tag=tag)
+
+
+# --------------------------------------------------------------------------
+def check_C01(tier, seed):
+    v = Verdict("C01", tier, seed)
+    exe = build_driver("asan")
+    for c in cfgs(tier, ["C01_quick.cfg", "C01_nocase_titles.cfg", "C01_lists.cfg"], ["C01_len7.cfg", "C01_two_parses.cfg"]):
+        res = tlc_parse(v, c, INV_PARSE)
+        parsecheck.replay(v, exe, res, aspects={"tree", "diag"}, seed=seed,
+                          renderings=("canonical", "varied") if tier == "quick" else ("canonical",), tag="C01")
+    v.cov["exhaustive"] = True
+    return v.finish(rule="every token sequence up to the configured length over the schema's alphabet (TLC BFS) for eight schemas "
+                         "(flat, sections, unique titles / free-form / deprecated / no-default, three levels + function, case-insensitive "
+                         "names, case-insensitive titles, consecutive lists); a behaviour is non-trivial when it is accepted or longer than "
+                         "one token; each is parsed by the real library (canonical and seeded varied rendering) and the full getter tree compared")
+
+
+def check_C06(tier, seed):
+    v = Verdict("C06", tier, seed)
+    exe = build_driver("asan")
+    for c in cfgs(tier, ["lines_quick.cfg"], ["lines_thorough.cfg"]):
+        res = tlc_parse(v, c, INV_LINES)
+        parsecheck.replay(v, exe, res, aspects={"diag", "diagpos"}, seed=seed,
+                          renderings=("canonical", "varied"), tag="C06")
+    # scanner level: the line counter through every start condition (comments with stars, multi-line strings, continuations)
+    run_lex(v, exe, cfgs(tier, ["lex_comment_quick.cfg", "lex_lines_quick.cfg"], ["lex_comment_thorough.cfg"]), seed, "C06")
+    res = run_tlc("MC_Inc.tla", os.path.join("mc", "inc_quick.cfg")) if os.path.exists(os.path.join(SPEC, "MC_Inc.tla")) else None
+    if res is not None:
+        from . import inccheck
+        v.add_tlc("inc_quick.cfg", res, ["P_C13_Flatten", "P_C13_PositionRestored"])
+        inccheck.replay(v, exe, res, aspects={"diag", "diagpos"}, seed=seed, tag="C06")
+    v.cov["exhaustive"] = True
+    return v.finish(rule="every token sequence up to the configured length with a line break choice before every token, "
+                         "multi-line comments and strings; every byte string over the comment / string class representatives (line "
+                         "counter); include trees; non-trivial = rejected text (its first diagnostic's file and line are compared) "
+                         "or accepted text (must be silent)")
+
+
+def check_C15(tier, seed):
+    v = Verdict("C15", tier, seed)
+    exe = build_driver("asan")
+    for c in cfgs(tier, ["comments_quick.cfg"], ["comments_thorough.cfg"]):
+        res = tlc_parse(v, c, INV_LINES)
+        parsecheck.replay(v, exe, res, aspects={"tree", "diag"}, seed=seed,
+                          renderings=("varied",), tag="C15")
+    v.cov["exhaustive"] = True
+    return v.finish(rule="every token sequence up to the configured length with comment tokens (empty and non-empty, "
+                         "all three styles chosen by the renderer) at every token boundary, annotation support on and off")
+
+
+def check_C12(tier, seed):
+    v = Verdict("C12", tier, seed)
+    exe = build_driver("asan")
+    for c in cfgs(tier, ["ignore_quick.cfg"], ["ignore_thorough.cfg"]):
+        res = tlc_parse(v, c, INV_IGNORE)
+        parsecheck.replay(v, exe, res, aspects={"tree", "diag", "balance"}, seed=seed,
+                          renderings=("canonical",), tag="C12")
+    stress.run(v, exe, tier, tag="C12", only=("deep-unknown",))
+    v.cov["exhaustive"] = True
+    return v.finish(rule="every token sequence up to the configured length over the schema's alphabet plus an undeclared name, "
+                         "parsed with CFGF_IGNORE_UNKNOWN (single, multi and titled declared sections); malformed undeclared items are "
+                         "outside the property (status unspec: only crash/leak checked); plus 10^5-deep nesting instances")
+
+
+def check_C14(tier, seed):
+    v = Verdict("C14", tier, seed)
+    exe = build_driver("asan")
+    for c in cfgs(tier, ["callbacks_quick.cfg"], ["callbacks_thorough.cfg"]):
+        res = tlc_parse(v, c, INV_CB)
+        parsecheck.replay(v, exe, res, aspects={"tree", "tree_rejected", "diag", "cb"}, seed=seed,
+                          renderings=("canonical",), tag="C14")
+    # the pre-set validation callback of the by-name setters: veto and rewrite
+    for c in ["api_veto2_quick.cfg", "api_rewrite_quick.cfg", "api_rewrite2_quick.cfg"]:
+        res = tlc_api(v, c)
+        res.behaviours = [b for b in res.behaviours if b["calls"][-1]["call"]["name"] in ("vi", "vs", "vf")]
+        apicheck.replay(v, exe, res, aspects={"tree", "cb", "noeffect"}, seed=seed, tag="C14", sigprefix="api")
+    v.cov["exhaustive"] = True
+    return v.finish(rule="every token sequence up to the configured length over a schema whose scalar, list, section and function "
+                         "options carry value-parsing / validation / function callbacks, for every choice of the failing invocation "
+                         "(none, 1st, 2nd of each kind); the callback log (kind, option, text/argv, visible values) is compared entry by entry; "
+                         "by-name setters with a pre-set validation callback that vetoes or rewrites the 1st / 2nd invocation")
+
+
+def check_C07(tier, seed):
+    v = Verdict("C07", tier, seed)
+    exe = build_driver("asan")
+    sp = ["fs dir $R/d1", "searchpath c1 $R/d1", "searchpath c1 $R"]
+    for c in cfgs(tier, ["callbacks_quick.cfg", "C07_titles.cfg"], ["callbacks_thorough.cfg", "C01_quick.cfg"]):
+        res = tlc_parse(v, c, INV_CB if "callbacks" in c else (INV_PARSE[2:] if "C07" in c else INV_PARSE))
+        parsecheck.replay(v, exe, res, aspects={"freed", "balance"}, seed=seed,
+                          renderings=("canonical",), tag="C07")
+        if "callbacks" not in c:
+            # the same histories with a search path set: sections share the context's path list
+            parsecheck.replay(v, exe, res, aspects={"freed", "balance"}, seed=seed, renderings=("canonical",), tag="C07sp",
+                              extra_before=sp, sigprefix="parse+searchpath")
+    # API histories (setters, bulk set, section add/remove, annotations) with and without a search path
+    for c in cfgs(tier, ["api_depth2.cfg"], ["api_quick.cfg"]):
+        res = tlc_api(v, c)
+        apicheck.replay(v, exe, res, aspects={"freed", "balance"}, seed=seed, tag="C07api")
+        apicheck.replay(v, exe, res, aspects={"freed", "balance"}, seed=seed, tag="C07apisp",
+                        extra_before=sp[:2], sigprefix="api+searchpath")
+    if os.path.exists(os.path.join(SPEC, "MC_Inc.tla")):
+        from . import inccheck
+        res = run_tlc("MC_Inc.tla", os.path.join("mc", "inc_quick.cfg"))
+        v.add_tlc("inc_quick.cfg", res, ["P_C13_Flatten"])
+        inccheck.replay(v, exe, res, aspects={"balance"}, seed=seed, tag="C07inc")
+    v.cov["exhaustive"] = True
+    return v.finish(rule="every token sequence up to the configured length (every cut and corruption point of every short text) "
+                         "over schemas with pointer-valued options, lists, nested and titled sections (replacement in place) and functions, "
+                         "callbacks failing at every position, with and without a search path; API call histories with and without a search "
+                         "path; include trees aborted at every level; after each behaviour: live heap blocks, open streams and descriptors "
+                         "back to the start value, release callback log = the specification's released/stored pointer sets, ASan clean")
+
+
 def check_C09(tier, seed):
     v = Verdict("C09", tier, seed)
     exe = build_driver("asan")
-    for c in (["api_quick.cfg", "api_nopre_quick.cfg"] if tier == "quick" else ["api_quick.cfg", "api_nopre_quick.cfg"]):
+    for c in cfgs(tier, ["api_quick.cfg", "api_nopre_quick.cfg"], ["api_thorough.cfg"]):
         res = tlc_api(v, c)
         apicheck.replay(v, exe, res, aspects={"tree", "freed", "balance"}, seed=seed, tag="C09")
     v.cov["exhaustive"] = True
-    return v.finish(rule="state graph of the abstract store under ~55 call instances (setters, list set/append, bulk set, set-from-text, "
+    return v.finish(rule="state graph of the abstract store under ~60 call instances (setters, list set/append, bulk set, set-from-text, "
                          "annotation, titled add, remove by index/title, section-relative calls, wrong type / index / name) explored to the "
                          "depth bound; every transition (reachable state x call) is replayed after a shortest call path to its pre-state; "
                          "return value and full tree compared after every call")
@@ -142,19 +182,20 @@ def check_C09(tier, seed):
 def check_C10(tier, seed):
     v = Verdict("C10", tier, seed)
     exe = build_driver("asan")
-    for c in (["api_quick.cfg", "api_nopre_quick.cfg", "api_veto_quick.cfg"] if tier == "quick" else ["api_quick.cfg", "api_nopre_quick.cfg", "api_veto_quick.cfg"]):
+    for c in cfgs(tier, ["api_quick.cfg", "api_nopre_quick.cfg", "api_veto_quick.cfg"], ["api_thorough.cfg"]):
         res = tlc_api(v, c)
         # keep only behaviours whose last call is refused: that is the call under test
         res.behaviours = [b for b in res.behaviours if b["calls"][-1]["exp"]["ret"] == "fail"]
         apicheck.replay(v, exe, res, aspects={"noeffect", "cb"}, seed=seed, tag="C10")
+    # set-from-text through the parser: a refused value leaves the option as it was
+    res = tlc_parse(v, "C10_parse_quick.cfg", INV_PARSE)
+    parsecheck.replay(v, exe, res, aspects={"tree_rejected"}, seed=seed, renderings=("canonical",), tag="C10p",
+                      pol={"mod": "none", "reset": False, "cmt": True})
     v.cov["exhaustive"] = True
     return v.finish(rule="every reachable option state (pristine default, explicitly set, emptied, annotated, list of n, after parse) x every "
                          "refusing call (bulk set with an unconvertible element at each position, vetoed by-name setter, wrong type, illegal "
                          "index, existing title, missing section, unconvertible set-from-text); the driver's dump of the whole context "
                          "(values, counts, annotation, RESET/MODIFIED bits) must be bit-for-bit identical before and after")
-
-
-INV_PRINT = ["P_C19_ExactlyOnceInOrder", "P_C19_Nesting", "P_C19_UnsetCommentedOut", "P_C19_PrintCb"]
 
 
 def check_C19(tier, seed):
@@ -173,41 +214,39 @@ def check_C19(tier, seed):
 def check_C05(tier, seed):
     v = Verdict("C05", tier, seed)
     exe = build_driver("asan")
-    for c in ["rt_quick.cfg", "rt_nopre_quick.cfg"]:
+    for c in (["rt_quick.cfg", "rt_nopre_quick.cfg"] if tier == "quick" else ["rt_thorough.cfg", "rt_nopre_thorough.cfg"]):
         res = run_tlc("MC_Api.tla", os.path.join("mc", c))
         v.add_tlc(c, res, ["P_C05_RoundTrip"] + PROPS_API)
         apicheck.replay(v, exe, res, aspects={"roundtrip"}, seed=seed, tag="C05", sigprefix="rt")
+    # states reached by parsing (consecutive list assignments, emptied lists, repeated titles): print -> parse -> compare
+    for c in cfgs(tier, ["C01_lists.cfg", "C05_parse_quick.cfg"], []):
+        res = tlc_parse(v, c, INV_PARSE)
+        res.behaviours = [b for b in res.behaviours if b["parses"][-1]["exp"]["status"] == "ok"]
+        parsecheck.replay(v, exe, res, aspects={"roundtrip"}, seed=seed, renderings=("canonical",), tag="C05p")
+    from . import bytesweep
+    bytesweep.run(v, exe, tier, seed)
     v.cov["exhaustive"] = True
     return v.finish(rule="every state of the store reachable by the call pool (setters, lists, bulk set, annotations, titled add/remove, "
-                         "strings and titles containing quotes, backslashes, '$', comment markers) from the initial and a parsed state, "
-                         "over a schema of printable option kinds: print -> parse into a fresh context -> compare trees -> print -> parse -> print")
-
-
-INV_LEX = ["P_C02_Total", "P_C02_Progress", "P_C03_RulesMeanRef", "P_C03_NoExpandInSQ", "P_C03_CommentsSilent",
-           "P_C06_Lines", "P_C02_ReturnsVerdict"]
-
-
-def run_lex(v, exe, cfgs, seed, tag):
-    for c in cfgs:
-        res = run_tlc("MC_Lex.tla", os.path.join("mc", c))
-        v.add_tlc(c, res, INV_LEX)
-        lexcheck.replay(v, exe, res, seed=seed, tag=tag)
+                         "strings and titles containing quotes, backslashes, '$', '${' without '}', comment markers) from the initial and a "
+                         "parsed state, and every state reached by short accepted texts, over schemas of printable option kinds: print -> "
+                         "parse into a fresh context -> compare trees -> print -> parse -> print; plus every single byte 1..255 as value and title")
 
 
 def check_C03(tier, seed):
     v = Verdict("C03", tier, seed)
     exe = build_driver("asan")
-    run_lex(v, exe, ["lex_dq_quick.cfg", "lex_sq_quick.cfg", "lex_comment_quick.cfg"], seed, "C03")
+    run_lex(v, exe, cfgs(tier, ["lex_dq_quick.cfg", "lex_dqesc_quick.cfg", "lex_sq_quick.cfg", "lex_comment_quick.cfg"],
+                         ["lex_dq_thorough.cfg", "lex_sq_thorough.cfg"]), seed, "C03")
     v.cov["exhaustive"] = True
     return v.finish(rule="every byte string up to the length bound over the class representatives of each start condition "
-                         "(double-quoted, single-quoted, comment), embedded as 's=\"...' / 's=\'...' / '/*...'; environment: one variable "
+                         "(double-quoted, single-quoted, comment), embedded as 's=\"...' / 's=\\'...' / '/*...'; environment: one variable "
                          "set to a value with a meta character, one empty, one unset; the parsed value of s is compared byte for byte")
 
 
 def check_C02(tier, seed):
     v = Verdict("C02", tier, seed)
     exe = build_driver("asan")
-    run_lex(v, exe, ["lex_initial_quick.cfg", "lex_words_quick.cfg", "lex_dqesc_quick.cfg"], seed, "C02")
+    run_lex(v, exe, cfgs(tier, ["lex_initial_quick.cfg", "lex_words_quick.cfg", "lex_dqesc_quick.cfg"], ["lex_initial_thorough.cfg"]), seed, "C02")
     res = tlc_parse(v, "C02_parse_quick.cfg", INV_PARSE[2:])
     parsecheck.replay(v, exe, res, aspects={"balance"}, seed=seed, renderings=("canonical",), tag="C02")
     stress.run(v, exe, tier, tag="C02")
@@ -223,7 +262,7 @@ def check_C02(tier, seed):
 def check_C04(tier, seed):
     v = Verdict("C04", tier, seed)
     exe = build_driver("asan")
-    for c in ["num_int_quick.cfg", "num_float_quick.cfg", "num_bool_quick.cfg"]:
+    for c in cfgs(tier, ["num_int_quick.cfg", "num_float_quick.cfg", "num_bool_quick.cfg"], ["num_int_thorough.cfg", "num_float_thorough.cfg"]):
         res = run_tlc("MC_Num.tla", os.path.join("mc", c))
         v.add_tlc(c, res, ["P_C04_IntExact"])
         numcheck.replay(v, exe, res, seed=seed, tag="C04")
@@ -238,33 +277,33 @@ def check_C04(tier, seed):
                          "DBL_MAX; each through the parser, cfg_setopt and cfg_setmulti with ambient errno in {0, ERANGE, EINVAL}; non-trivial = accepted numerals")
 
 
-INV_PATH = ["P_C11_Agree", "P_C11_GoodResolve", "P_C11_FirstInstance"]
-
-
 def check_C11(tier, seed):
     v = Verdict("C11", tier, seed)
     exe = build_driver("asan")
     res = run_tlc("MC_Path.tla", os.path.join("mc", "path_tree.cfg"))
     v.add_tlc("path_tree.cfg", res, INV_PATH)
     pathcheck.replay(v, exe, res, seed=seed, tag="C11", mutate=True)
-    res = run_tlc("MC_Path.tla", os.path.join("mc", "path_enum_quick.cfg"))
-    v.add_tlc("path_enum_quick.cfg", res, INV_PATH)
-    pathcheck.replay(v, exe, res, seed=seed, tag="C11")
+    for c in cfgs(tier, ["path_enum_quick.cfg"], ["path_enum_thorough.cfg"]):
+        res = run_tlc("MC_Path.tla", os.path.join("mc", c))
+        v.add_tlc(c, res, INV_PATH)
+        pathcheck.replay(v, exe, res, seed=seed, tag="C11")
     v.cov["exhaustive"] = True
     return v.finish(rule="(a) every path enumerated from a four-level tree (every option x qualifier form: unqualified, =index, =title, ='quoted' "
                          "with escapes) and its systematic breakages (dropped / duplicated separators and quotes, stray '|' or '=' at either end, "
-                         "bad index, unknown title, unbalanced quoting), each also through cfg_setstr and cfg_rmsec on a fresh context; "
-                         "(b) every byte string up to the length bound over {s m t c | = ' \\ 0 1 9 a b}; cfg_getopt / cfg_getsec results are "
+                         "bad index incl. 2^32+k, unknown title, unbalanced quoting), each also through cfg_setstr and cfg_rmsec on a fresh context; "
+                         "(b) every byte string up to the length bound over {s m t c | = ' \\\\ 0 1 9 a b}; cfg_getopt / cfg_getsec results are "
                          "located in the tree by pointer identity and compared with the stepwise location the specification computes")
 
 
-CHECKS = {"C11": check_C11, "C04": check_C04, "C02": check_C02, "C03": check_C03, "C05": check_C05, "C19": check_C19, "C09": check_C09, "C10": check_C10, "C14": check_C14, "C07": check_C07, "C12": check_C12, "C01": check_C01, "C06": check_C06, "C15": check_C15}
+CHECKS = {"C01": check_C01, "C02": check_C02, "C03": check_C03, "C04": check_C04, "C05": check_C05, "C06": check_C06,
+          "C07": check_C07, "C09": check_C09, "C10": check_C10, "C11": check_C11, "C12": check_C12, "C14": check_C14,
+          "C15": check_C15, "C19": check_C19}
 
 
 def main(argv):
     if len(argv) >= 2 and argv[0] == "--replay":
-        print(open(argv[1]).read())
-        return 0
+        from . import replaytool
+        return replaytool.main(argv[1])
     if len(argv) < 1:
         print(__doc__)
         return 2
